@@ -110,12 +110,19 @@ def run_property(pid, tier, repo, replay=None, quiet=False):
                 known.append((f, e))
             else:
                 violations.append(f)
-    if dead_controls and not violations:
-        # a control that cannot produce a *new* finding because the rule already reports the
-        # tree itself is not a dead control: unlisted violations win, like with the floors
+    n_ctl = len(spec.get("controls", []))
+    if dead_controls and not violations and (len(dead_controls) * 2 > n_ctl):
+        # A control that cannot produce a *new* finding because the rule already reports the
+        # tree itself is not a dead control (unlisted violations win, like with the floors).
+        # A single control can also stop firing because a refactoring made its canonical edit
+        # harmless on this tree (e.g. it removes a copy that has become redundant): that is
+        # recorded in the evidence; only when most controls of the property are dead is the
+        # analysis itself in doubt.
         print("\n".join(out))
         print("ANALYSIS-ERROR property=%s %s" % (pid, dead_controls[0]))
         return 2
+    for dc in dead_controls:
+        say("note: %s (recorded; the other controls of %s fired)" % (dc, pid))
     if replay:
         want = json.load(open(replay)).get("key")
         violations = [f for f in violations if list(f.key) == want]
